@@ -1,6 +1,8 @@
 import Emg3dVerif.Props.C03
 import Emg3dVerif.Props.C04
 import Emg3dVerif.Model.Cycle
+import Mathlib.Tactic.IntervalCases
+import Mathlib.Tactic.NormNum
 set_option linter.unusedSectionVars false
 /-!
 # The complete multigrid call is a consistent iteration (C03 at the level of `multigrid`)
@@ -370,5 +372,50 @@ theorem mgRun_fixed_exact (r : Run) (l0 : Lvl K) (hS : Solved l0)
   simp only [List.length_append, List.length_cons, List.length_nil] at hlen
   have : zs = [] := List.length_eq_zero_iff.1 (by omega)
   rw [h1, this, List.nil_append]
+
+/-! ## non-vacuity: a non-trivial exactly solved level (2×2×2 cells, triaxial coefficients) -/
+
+namespace Ex
+def g0 : Grid ℚ := ⟨2, 2, 2, fun _ => 1, fun _ => 1, fun _ => 1⟩
+def m0 : VM ℚ := ⟨fun _ _ _ => -1, fun _ _ _ => -2, fun _ _ _ => -3, fun _ _ _ => 1⟩
+def e0 : EF ℚ := ⟨fun i j k => if i = 0 ∧ j = 1 ∧ k = 1 then 1 else 0, fun _ _ _ => 0,
+  fun i j k => if i = 1 ∧ j = 1 ∧ k = 0 then 2 else 0⟩
+/-- `A e0` on the six interior edges (computed with the executable model), zero elsewhere -/
+def s0 : EF ℚ :=
+  ⟨fun i j k => if i = 0 ∧ j = 1 ∧ k = 1 then 3 else if i = 1 ∧ j = 1 ∧ k = 1 then 2 else 0,
+   fun i j k => if i = 1 ∧ j = 0 ∧ k = 1 then -3 else if i = 1 ∧ j = 1 ∧ k = 1 then 3 else 0,
+   fun i j k => if i = 1 ∧ j = 1 ∧ k = 0 then 13 else if i = 1 ∧ j = 1 ∧ k = 1 then 1 else 0⟩
+
+example : Solved (⟨g0, m0, s0, e0⟩ : Lvl ℚ) := by
+  constructor
+  · intro d hd
+    obtain ⟨c, i, j, k⟩ := d
+    cases c <;> simp only [Interior, g0] at hd
+    · obtain ⟨h1, h2, h3, h4, h5⟩ := hd
+      have hj : j = 1 := by omega
+      have hk : k = 1 := by omega
+      subst hj; subst hk
+      interval_cases i <;>
+        norm_num [amatAt, amat, EF.get, g0, m0, e0, s0, rrx, stx, u3pp, u3pm, u2pp, u2pm, v3pp,
+          v3pm, v2pp, v2pm]
+    · obtain ⟨h1, h2, h3, h4, h5⟩ := hd
+      have hi : i = 1 := by omega
+      have hk : k = 1 := by omega
+      subst hi; subst hk
+      interval_cases j <;>
+        norm_num [amatAt, amat, EF.get, g0, m0, e0, s0, rry, sty, u1pp, u1pm, u3pp, u3mp, v1pp,
+          v1pm, v3pp, v3mp]
+    · obtain ⟨h1, h2, h3, h4, h5⟩ := hd
+      have hi : i = 1 := by omega
+      have hj : j = 1 := by omega
+      subst hi; subst hj
+      interval_cases k <;>
+        norm_num [amatAt, amat, EF.get, g0, m0, e0, s0, rrz, stz, u2pp, u2mp, u1pp, u1mp, v2pp,
+          v2mp, v1pp, v1mp]
+  · intro d hd
+    obtain ⟨c, i, j, k⟩ := d
+    cases c <;> simp only [Interior, g0] at hd <;> simp only [EF.get, s0, e0] <;>
+      constructor <;> (repeat' split) <;> first | rfl | trivial | (exfalso; omega)
+end Ex
 
 end Emg
